@@ -1,5 +1,5 @@
 // C11 — CrossSections are regularised; 2D Booleans compute the set operation
-// (DESIGN.md §4 C11).   geom2d-rev: 2
+// (DESIGN.md §4 C11).   geom2d-rev: 3
 //
 // Oracle: integer winding numbers (exact orientation predicate) of the INPUT
 // contours, folded through the fill rule / set formula, compared with the
@@ -39,6 +39,8 @@ struct Check {
   std::function<bool(vec2)> expected;   // membership demanded by the statement (may be empty)
   std::string log;                      // how the inputs were made (witness text)
   size_t sampleEdges = 40;
+  // value handed through unchanged from an operand that is itself exempt (single-operand BatchBoolean)
+  bool passThrough = false;
 };
 struct Outcome {
   bool ok = true;
@@ -92,15 +94,16 @@ Outcome observe(vh::Ctx& c, const Check& k, const CrossSection& res) {
   c.maxi("max_result_edges", (long long)outS.size());
   c.maxi("max_input_edges", (long long)inS.size());
 
-  // --- simple: no contour passes twice through the same point (exact coordinates). Transform results are
-  // exempt (a singular transform collapses contours without re-regularising; only counted).
+  // --- simple: no contour passes twice through the same point (exact coordinates). Transform results (and
+  // single-operand BatchBoolean, which returns its operand unchanged) are exempt: a singular transform
+  // collapses contours without re-regularising; this is only counted.
   for (const auto& ring : o.polys) {
     std::vector<std::pair<double, double>> v;
     for (const vec2& p : ring) v.push_back({p.x, p.y});
     std::sort(v.begin(), v.end());
     auto it = std::adjacent_find(v.begin(), v.end());
     if (it == v.end()) continue;
-    if (k.kind.rfind("xform", 0) == 0) {
+    if (k.kind.rfind("xform", 0) == 0 || k.passThrough) {
       c.count("xform_results_with_repeated_vertex");
       break;
     }
@@ -601,6 +604,7 @@ void caseProgram(vh::Ctx& c) {
       const OpType op = (OpType)g.range(0, 2);
       k.kind = std::string("batch:") + opName(op);
       k.inputs = ps;
+      k.passThrough = cnt == 1;
       k.expected = [ps, op](vec2 p) {
         if (ps.empty()) return false;
         bool r = g2::winding(ps[0], p) > 0;
